@@ -9,6 +9,7 @@ package main
 // convertRawBosonFrame are the code under test.
 
 import (
+	"errors"
 	"fmt"
 	"testing"
 	"time"
@@ -33,6 +34,8 @@ type mSink struct {
 	open bool
 	cam  pCamera
 	viol string
+	// storage hiccup: StopRecording reports an error (the file is closed all the same)
+	stopFail func() bool
 }
 
 func (s *mSink) frameSeq(f *cptvframe.Frame) int {
@@ -43,7 +46,11 @@ func (s *mSink) frameSeq(f *cptvframe.Frame) int {
 }
 func (s *mSink) StopRecording() error {
 	s.ops = append(s.ops, mOp{Op: 'P'})
+	wasOpen := s.open
 	s.open = false
+	if wasOpen && s.stopFail != nil && s.stopFail() {
+		return errors.New("scripted: rename of the finished recording failed")
+	}
 	return nil
 }
 func (s *mSink) StartRecording(bg *cptvframe.Frame, th uint16) error {
@@ -309,6 +316,12 @@ func TestVerif_C13(t *testing.T) {
 		}, func() {
 			rig := newC13Rig(cam, mcfg, minS, maxS, prevS)
 			twin := newC13Rig(cam, mcfg, minS, maxS, prevS) // same stream with the bad frames deleted
+			if myIdx%3 == 0 {
+				// a bad frame must be reported as such even when closing the recording it interrupts fails
+				frng := vNewRNG(uint64(myIdx), 5)
+				rig.motionS.stopFail = func() bool { return frng.Chance(60) }
+				c.Count("streams_with_failing_stops", 1)
+			}
 			badSeq := map[int]bool{}
 			var verdicts, twinVerdicts []bool
 			nbad := 0
